@@ -18,7 +18,8 @@ def tok_name(t):
 
 
 def parser_fns(P):
-    return [f for f in P.fns.values() if f.id.startswith('parser::') and not f.raw.get('derived') and 'kw::' not in f.id]
+    # functions of the parser module, including Parse impls of types that are local to a parser function (`<parser::..::T as Parse>::parse`)
+    return [f for f in P.fns.values() if (f.id.startswith('parser::') or f.id.startswith('<parser::')) and not f.raw.get('derived') and 'kw::' not in f.id]
 
 
 def buffer_of(f, e, groups):
